@@ -49,6 +49,7 @@
 #include <algorithm>
 #include <iostream>
 #include <set>
+#include <sstream>
 
 #include "StringDictionary.h"
 
@@ -164,6 +165,12 @@ protected:
   uint *A;
 
   bool static compare(TrieNode *n1, TrieNode *n2) { return (*n1).cmp(*n2); }
+
+  /** Writes the XBW inputs (len, mapping, alpha, last, A) in the format read
+      by the XBW constructor.
+      @param out: the output stream.
+  */
+  void saveArrays(std::ostream &out);
 };
 
 #endif /* _STRINGDICTIONARY_XBW_H */
